@@ -347,3 +347,39 @@ Proof.
   eapply Permutation_trans; [apply Permutation_flat_map'; exact P|].
   apply Permutation_sym. now apply out_is_spec_all.
 Qed.
+
+(* ---- account stream side ----------------------------------------------------------------------------- *)
+
+Lemma orders_of_app : forall a b, orders_of (a ++ b) = orders_of a ++ orders_of b.
+Proof. intros. unfold orders_of. apply flat_map_app. Qed.
+
+Lemma orders_of_map_MOrder : forall l, orders_of (map MOrder l) = l.
+Proof. induction l as [|x t IH]; [reflexivity|]. cbn [map]. unfold orders_of in *. cbn [flat_map app]. now rewrite IH. Qed.
+
+Lemma orders_of_acct_from : forall pol sched, orders_of (acct_events_from pol sched) = [].
+Proof. induction sched as [|[t k] rest IH]; cbn; [reflexivity|exact IH]. Qed.
+
+Lemma orders_of_merged : forall m stop script pol sched,
+  orders_of (merged m stop script pol sched) = s_out (run_manager m stop script).
+Proof.
+  intros. unfold merged, acct_events. rewrite orders_of_app, orders_of_map_MOrder.
+  cbn. rewrite orders_of_acct_from. apply app_nil_r.
+Qed.
+
+Theorem answers_independent_of_account_stream : forall m stop script pol1 sched1 pol2 sched2,
+  sorted_by_arrival script = true ->
+  orders_of (merged m stop script pol1 sched1) = orders_of (merged m stop script pol2 sched2) /\
+  Permutation (orders_of (merged m stop script pol1 sched1)) (spec_events m stop script).
+Proof.
+  intros m stop script pol1 sched1 pol2 sched2 Hs. rewrite !orders_of_merged. split; [reflexivity|].
+  now destruct (run_refines_spec m stop script Hs).
+Qed.
+
+Lemma notices_of_merged : forall m stop script pol sched,
+  notices_of (merged m stop script pol sched) = map fst sched.
+Proof.
+  intros. unfold merged, notices_of. rewrite flat_map_app.
+  assert (A : forall l, flat_map (fun x => match x with MReconnecting t => [t] | _ => [] end) (map MOrder l) = [])
+    by (induction l; cbn; auto).
+  rewrite A. cbn. induction sched as [|[t k] rest IH]; cbn; [reflexivity|]. now rewrite IH.
+Qed.
